@@ -159,82 +159,6 @@ def fuel_bound(chunks, sscript):
     return sum(len(c) for c in chunks) + len(sscript) + len(chunks) + 1
 
 
-class _FakeSSLSocket:
-    """What SSLStreamTransport needs from ssl.SSLSocket; send() is scripted (SSL exceptions)."""
-
-    def __init__(self, sock, script, context):
-        self._sock, self.script, self.context = sock, script, context
-        self.family, self.type, self.proto = sock.family, sock.type, sock.proto
-
-    def setblocking(self, flag):
-        self._sock.setblocking(flag)
-
-    def do_handshake(self):
-        return None
-
-    def fileno(self):
-        return self._sock.fileno()
-
-    def getsockname(self):
-        return self._sock.getsockname()
-
-    def getpeername(self):
-        return self._sock.getpeername()
-
-    def getpeercert(self, binary_form=False):
-        return None
-
-    def cipher(self):
-        return None
-
-    def compression(self):
-        return None
-
-    def version(self):
-        return None
-
-    def unwrap(self):
-        return self._sock
-
-    def shutdown(self, how):
-        self._sock.shutdown(how)
-
-    def close(self):
-        self._sock.close()
-
-    def send(self, data, *flags):
-        import ssl
-        sc = self.script
-        with memoryview(data) as mv, mv.cast("B") as mv:
-            if not sc.send:
-                sc.tick(0)
-                k = len(mv)
-            else:
-                kind, n, cost = sc.send.pop(0)
-                sc.tick(cost)
-                if kind in (1, 2):
-                    raise ssl.SSLWantWriteError(ssl.SSL_ERROR_WANT_WRITE, "scripted")
-                if kind == 3:
-                    raise ssl.SSLWantReadError(ssl.SSL_ERROR_WANT_READ, "scripted")
-                if kind == 4:
-                    raise ssl.SSLSyscallError(ssl.SSL_ERROR_SYSCALL, "scripted")
-                if kind == 5:
-                    raise ssl.SSLZeroReturnError(ssl.SSL_ERROR_ZERO_RETURN, "scripted")
-                k = min(n, len(mv))
-            if k:
-                sc.accepted += mv[:k]
-                self._sock.sendall(mv[:k])
-            return k
-
-
-class _FakeSSLContext:
-    def __init__(self, script):
-        self.script = script
-
-    def wrap_socket(self, sock, **kw):
-        return _FakeSSLSocket(sock, self.script, self)
-
-
 def _chunk_protocol():
     from easynetwork.protocol import StreamProtocol
     from easynetwork.serializers.abc import AbstractIncrementalPacketSerializer
@@ -272,7 +196,7 @@ def run_sync(inp):
     no_sendmsg = (path == 2 and impl != 1)
     if impl == 1:
         raw, peer = iosim.make_pair(_socket.socket, None)
-        transport = SSLStreamTransport(raw, _FakeSSLContext(script), iosim.secs(ri), server_side=False,
+        transport = SSLStreamTransport(raw, iosim.FakeSSLContext(script), iosim.secs(ri), server_side=False,
                                        server_hostname="x", standard_compatible=False, selector_factory=sel.factory)
     else:
         sock, peer = iosim.make_pair(iosim.NoSendmsgSocket if no_sendmsg else iosim.ScriptedSocket, script)
